@@ -85,7 +85,33 @@ def run_child(spec, scratch, prefix=None, timeout=CHILD_TIMEOUT):
         p = subprocess.run(cmd, env=child_env(), cwd=scratch, capture_output=True, text=True, timeout=timeout)
     except subprocess.TimeoutExpired:
         return "timeout", None, ""
-    return p.returncode, parse_child(p.stdout), p.stderr[-1500:]
+    out = parse_child(p.stdout)
+    if out is not None:
+        _hooks_reached(spec, out)
+    return p.returncode, out, p.stderr[-1500:]
+
+
+_REMOTE = None
+
+
+def _is_remote_name(name):
+    global _REMOTE
+    if _REMOTE is None:
+        _REMOTE = {n.replace("-", "_") for _t, n in documented_names() if not is_bundled(n)}
+    return isinstance(name, str) and name.replace("-", "_") in _REMOTE
+
+
+def _hooks_reached(spec, out):
+    """every substituted by-name load of a documented remote name must have passed the recording wrapper"""
+    res = out.get("results") or []
+    for st, r in zip(spec.get("steps", []), res):
+        if st.get("op") == "by_name" and st.get("substitute") and _is_remote_name(st.get("name")):
+            capture_of(r, st["name"])
+        elif st.get("op") == "parallel":
+            for n, o in zip(st.get("names", []), r.get("parallel") or []):
+                if o is not None and _is_remote_name(n) and not o.get("captured") and o.get("outcome") != "ok":
+                    raise HookNotReached("the wrapper around load_csv_dataset_from_remote was not reached while "
+                                         "loading %r in a thread (%s): inconclusive" % (n, o.get("exc_type")))
 
 
 def expected_desc(url, rows=40, unpack=False):
@@ -97,6 +123,29 @@ def expected_desc(url, rows=40, unpack=False):
     if unpack:
         return [d(a[:, 0]), d(a[:, 1])]
     return d(a)
+
+
+class HookNotReached(RuntimeError):
+    """the recording/substituting wrapper around the remote loader saw nothing: no verdict can rest on this run"""
+
+
+def capture_of(r, name):
+    """The metadata the recording wrapper captured for a by-name load of a remote name.
+
+    The wrapper is the instrumentation point that swaps the pinned checksum for the checksum of the fake payload.
+    A load that never reached it (a code base whose providers no longer go through load_csv_dataset_from_remote)
+    was judged on the pinned checksum of the real file, which no fake payload can meet: that is a hook that was
+    never reached - inconclusive - and not a finding about the loader.  Returns None when the load neither
+    reached the wrapper nor used the network nor failed (a remote name served from somewhere else: judged by the
+    caller)."""
+    cap = r.get("captured") or []
+    if cap:
+        return cap[-1]
+    if r.get("outcome") == "ok" and not r.get("requests"):
+        return None
+    raise HookNotReached("the wrapper around load_csv_dataset_from_remote was not reached while loading %r "
+                         "(outcome %s %s): substituted checksums were not in effect, inconclusive"
+                         % (name, r.get("outcome"), r.get("exc_type")))
 
 
 def same_data(got, want):
